@@ -43,6 +43,9 @@ pub fn gen_case(rng: &mut Rng, ctx: &mut Ctx, input: bool, stop: bool, faults: b
         tracing,
         warnings,
         tick_cap,
+        await_breaks: vec![],
+        stop_cmds: vec![],
+        trace_via_command: false,
     }
 }
 
@@ -119,8 +122,8 @@ impl Prop for C03 {
 
     fn runs(tier: Tier) -> u64 {
         match tier {
-            Tier::Quick => 60_000,
-            Tier::Thorough => 2_000_000,
+            Tier::Quick => 600_000,
+            Tier::Thorough => 20_000_000,
         }
     }
 
